@@ -123,7 +123,9 @@ def feed (lb : St) (e : Env) : St :=
 
 /-- the operation proper, before the hub runs dry -/
 def act (cfg : Cfg) (lb : St) : Op → St × List ResV
-  | .opn => (lb.start, [])
+  -- `Open()`; on a balancer that is already opening or open it returns the same open result: the
+  -- state stays as it is (`LB.start`)
+  | .opn => let lb1 := feed lb ⟨[], []⟩; (lb1.start, [])
   | .loaded l e => ((feed lb e).load (sub cfg) l, [])
   | .join ep e => ((feed lb e).notify (sub cfg) (.join ep), [])
   | .leave ep e => ((feed lb e).notify (sub cfg) (.leave ep), [])
@@ -485,7 +487,8 @@ structure Proto where
   cands : List (List Nat) := []
 
 def protoStep (p : Proto) : Op → Option Proto
-  | .opn => if p.phase = 0 then some { p with phase := 1, cands := [p.ref] } else none
+  -- the first `Open()` starts `_OpenImpl`; any further `Open()` finds the balancer opening or open
+  | .opn => if p.phase = 0 then some { p with phase := 1, cands := [p.ref] } else some p
   | .loaded l _ => if p.phase = 1 ∧ p.cands.any (sameSet l) then some { p with phase := 2, cands := [] } else none
   | .join ep e =>
     let r := refAfter p.ref (.join ep e)
@@ -509,8 +512,9 @@ def runSt (cfg : Cfg) (lb : St) : List Op → St
   | op :: ops => runSt cfg (stepSt cfg lb op).1 ops
 
 /-- hypotheses of the C05/C06 theorems: the operations come in an order the implementation admits
-    (`Open()` first, one initial load whose list is a server set seen since `Open()`, callbacks and
-    requests only after `Open()`), and every recorded choice was a legal one (`bad` never set) -/
+    (`Open()` first — any number of further `Open()` calls anywhere afterwards —, one initial load whose
+    list is a server set seen since the first `Open()`, callbacks and requests only after `Open()`), and
+    every recorded choice was a legal one (`bad` never set) -/
 def wf (cfg : Cfg) (ops : List Op) : Bool :=
   protoOk { ref := cfg.initial } ops && !(runSt cfg (init cfg) ops).sub.bad
 
